@@ -6,7 +6,7 @@
 (* them on recorded events; the MC_* models evaluate the same operators on *)
 (* exhaustive small scopes.                                                *)
 (***************************************************************************)
-EXTENDS Wide, Rounding, TLC
+EXTENDS Wide, Rounding, TLC, FiniteSets
 
 OK == <<"ok">>
 Bad(why) == <<"bad", why>>
@@ -107,4 +107,43 @@ WithPrecisionRoundWideOK(aw, P, m, r) ==
 CtxAddOK(a, b, p, m, r) == LET sum == DAdd(a, b) IN ValIs(r, RoundToPrec(sum, p, m))
 CtxIs(r, p, m) == IF "ctx" \notin DOMAIN r THEN Bad("outcome-kind")
                   ELSE Chk(r.ctx.precision = p /\ r.ctx.mode = m, "context")
+
+\* ---------------------------------------------------------------- C02: comparison (wide decimals: any i64 scales)
+CmpOK(form, a, b, r) ==
+  LET c == WCmp(a, b) IN
+  CASE form \in {"eq_val", "eq_ref", "eq_dref", "eq_dref_ref"} -> BoolIs(r, c = 0)
+    [] form \in {"ne_val", "ne_dref"} -> BoolIs(r, c # 0)
+    [] form \in {"lt_val", "lt_dref"} -> BoolIs(r, c < 0)
+    [] form \in {"le_val", "le_dref"} -> BoolIs(r, c <= 0)
+    [] form \in {"gt_val", "gt_dref"} -> BoolIs(r, c > 0)
+    [] form \in {"ge_val", "ge_dref"} -> BoolIs(r, c >= 0)
+    [] form \in {"cmp_val", "cmp_dref", "partial_cmp_val", "partial_cmp_dref"} -> IntIs(r, c)
+    [] OTHER -> Bad("unknown-form")
+\* max / min return one of the two arguments, the one the order prescribes
+MaxMinOK(form, a, b, r) ==
+  IF ~IsD(r) THEN Bad("outcome-kind")
+  ELSE LET x == WOf(r.d)  c == WCmp(a, b)
+           want == IF form \in {"max", "max_dref"} THEN (IF c > 0 THEN a ELSE b) ELSE (IF c <= 0 THEN a ELSE b)
+       IN Chk(WValEq(x, want) /\ (x = a \/ x = b), "maxmin")
+\* sort: the output is a permutation of the input (as representations) and non-decreasing by value
+SortOK(xs, r) ==
+  IF "ds" \notin DOMAIN r THEN Bad("outcome-kind")
+  ELSE LET ys == [i \in 1..Len(r.ds) |-> WOf(r.ds[i])]
+           count(seq, v) == Cardinality({i \in 1..Len(seq) : seq[i] = v})
+       IN Chk(/\ Len(ys) = Len(xs)
+              /\ \A i \in 1..Len(xs) : count(ys, xs[i]) = count(xs, xs[i])
+              /\ \A i \in 1..(Len(ys) - 1) : WCmp(ys[i], ys[i + 1]) <= 0, "sort")
+
+\* ---------------------------------------------------------------- C03: hash agrees with equality
+\* history: sequence of <<normal form, digest record>>; a value seen before must produce the same digests
+HashLookup(hs, key) == SelectInSeq(hs, LAMBDA p : p[1] = key)
+HashDigest(r) == <<r.h, r.len, r.dh>>
+HashOK(hs, a, r) ==
+  IF "h" \notin DOMAIN r THEN Bad("outcome-kind")
+  ELSE LET k == HashLookup(hs, WNorm(a))
+       IN IF k = 0 THEN OK ELSE Chk(hs[k][2] = HashDigest(r), "hash-differs-for-equal-values")
+HashRemember(hs, a, r) ==
+  IF "h" \notin DOMAIN r \/ HashLookup(hs, WNorm(a)) # 0 THEN hs ELSE Append(hs, <<WNorm(a), HashDigest(r)>>)
+\* a HashSet built from the values has exactly one entry per distinct value
+HashSetOK(xs, r) == IntIs(r, Cardinality({WNorm(xs[i]) : i \in 1..Len(xs)}))
 =============================================================================
